@@ -78,12 +78,25 @@ def plan(tier, seed):
                     jobs.append(("compound", H, P, fname, F, st, seed, math.factorial(P) * H**P * math.comb(H + P - 1, P)))
     for H, P in ((3, 2), (4, 3), (4, 4)):
         jobs.append(("reuse", H, P, seed, 5000))
+    jobs.append(("orch", seed, 100))
     jobs.sort(key=lambda j: -j[-1])
     return jobs
 
 
 def run_job(job):
-    return {"slot": job_slot, "compound": job_compound, "reuse": job_reuse}[job[0]](job)
+    return {"slot": job_slot, "compound": job_compound, "reuse": job_reuse, "orch": job_orch}[job[0]](job)
+
+
+def job_orch(job):
+    """hand-off chain CallingMCMC.fit -> mcmc_sampler -> compound_step (vmc/handoff.py)"""
+    from .. import handoff
+
+    r = Result()
+    payload = {"kind": "job", "job": job}
+    handoff.call_fit(r, payload)
+    handoff.call_sampler(r, payload)
+    r.sample({"orchestration": "CallingMCMC.fit -> mcmc_sampler -> compound_step"}, cap=1)
+    return r
 
 
 def job_reuse(job):
